@@ -209,4 +209,321 @@ theorem delete_chain (cv : Conv) (iter : List Uuid) : ∀ (p : Points) (c : Ctr)
       rw [← docAt_deletePoint cv p u hlt]
       exact ih _ _ _ hp1 hb1
 
+/-! ### what a batch that is not rejected did (read off C01's entry points) -/
+
+theorem insertPoints_cases (s : Shard) (b : List (Uuid × Data)) (o : C01.Oracle) :
+    ((C01.insertPoints s b o).1 = s ∧ ∃ r, (C01.insertPoints s b o).2 = .rejected r) ∨
+    (∃ p c, C01.insertLoop s.pts (C01.newIdCounter s o) b = .ok (p, c) ∧ o.indexOk = true ∧
+      C01.insertPoints s b o =
+        ({ pts := p, count := some (s.countV + b.length), free := some c.free, next := some c.next }, .ok)) := by
+  unfold C01.insertPoints
+  split
+  · exact Or.inl ⟨rfl, _, rfl⟩
+  · cases hl : C01.insertLoop s.pts (C01.newIdCounter s o) b with
+    | error e => exact Or.inl ⟨rfl, _, rfl⟩
+    | ok r =>
+      obtain ⟨p, c⟩ := r
+      cases hx : o.indexOk with
+      | false => exact Or.inl ⟨by simp, _, by simp; rfl⟩
+      | true => exact Or.inr ⟨p, c, rfl, rfl, by simp⟩
+
+theorem updatePoints_cases (cfg : C01.Cfg) (s : Shard) (b : List (Uuid × Data)) (o : C01.Oracle) :
+    ((C01.updatePoints cfg s b o).1 = s ∧ ∃ r, (C01.updatePoints cfg s b o).2 = .rejected r) ∨
+    (∃ p ids, C01.updateLoop cfg s.pts b [] = .ok (p, ids) ∧ o.indexOk = true ∧
+      C01.updatePoints cfg s b o = ({ s with pts := p }, .updated ids)) := by
+  unfold C01.updatePoints
+  cases hl : C01.updateLoop cfg s.pts b [] with
+  | error e => exact Or.inl ⟨rfl, _, rfl⟩
+  | ok r =>
+    obtain ⟨p, ids⟩ := r
+    cases hx : o.indexOk with
+    | false => exact Or.inl ⟨by simp, _, by simp; rfl⟩
+    | true => exact Or.inr ⟨p, ids, rfl, rfl, by simp⟩
+
+theorem deletePoints_cases (s : Shard) (ids : List Uuid) (o : C01.Oracle) :
+    ((C01.deletePoints s ids o).1 = s ∧ ∃ r, (C01.deletePoints s ids o).2 = .rejected r) ∨
+    (o.indexOk = true ∧
+      C01.deletePoints s ids o =
+        (let r := C01.deleteLoop s.pts (C01.newIdCounter s o) (C01.reorder (C01.dedup ids) o.iterOrder) []
+         ({ pts := r.1, count := some (s.countV - r.2.2.length), free := some r.2.1.free, next := some r.2.1.next },
+          .deleted r.2.2))) := by
+  unfold C01.deletePoints
+  cases hx : o.indexOk with
+  | false => exact Or.inl ⟨by simp, _, by simp; rfl⟩
+  | true =>
+    simp only [Bool.not_true, Bool.false_eq_true, if_false]
+    split
+    · exact Or.inl ⟨rfl, _, rfl⟩
+    · exact Or.inr ⟨trivial, rfl⟩
+
+/-- a rejected batch leaves the point store as it was -/
+theorem shard_step_rejected (cfg : C01.Cfg) (s : Shard) (op : C01.Op) (o : C01.Oracle)
+    (h : isRejected (s.step cfg op o).2 = true) : (s.step cfg op o).1 = s := by
+  cases op with
+  | insert b =>
+    rcases insertPoints_cases s b o with ⟨h1, _⟩ | ⟨p, c, _, _, heq⟩
+    · exact h1
+    · simp only [C01.Shard.step] at h; rw [heq] at h; cases h
+  | update b =>
+    rcases updatePoints_cases cfg s b o with ⟨h1, _⟩ | ⟨p, ids, _, _, heq⟩
+    · exact h1
+    · simp only [C01.Shard.step] at h; rw [heq] at h; cases h
+  | delete ids =>
+    rcases deletePoints_cases s ids o with ⟨h1, _⟩ | ⟨_, heq⟩
+    · exact h1
+    · simp only [C01.Shard.step] at h; rw [heq] at h; cases h
+
+/-- the change stream does not read the oracle's index bit -/
+theorem changes_indexOk (cfg : C01.Cfg) (cv : Conv) (s : Shard) (op : C01.Op) (o : C01.Oracle) (b : Bool) :
+    changes cfg cv s op { o with indexOk := b } = changes cfg cv s op o := by
+  cases op <;> rfl
+
+/-- the change stream of a batch that is not rejected leads from the old documents to the new ones -/
+theorem step_chain (cfg : C01.Cfg) (cv : Conv) (s : Shard) (hI : C01.Inv s) (hb : s.nextV ≤ idBound)
+    (op : C01.Op) (o : C01.Oracle) (hr : isRejected (s.step cfg op o).2 = false)
+    (hb' : (s.step cfg op o).1.nextV ≤ idBound) :
+    C02.PChain (docAt cv s.pts) (changes cfg cv s op o) (docAt cv (s.step cfg op o).1.pts) := by
+  have hlb : LiveBound s.pts := fun id u hl => Nat.lt_of_lt_of_le (hI.ctr.live_range id u hl).2 hb
+  cases op with
+  | insert b =>
+    simp only [C01.Shard.step] at hr hb' ⊢
+    rcases insertPoints_cases s b o with ⟨_, r, h2⟩ | ⟨p, c, hl, _, heq⟩
+    · rw [h2] at hr; cases hr
+    · rw [heq] at hb' ⊢
+      exact (insert_chain cv b s.pts (C01.newIdCounter s o) p c hI.pts (C01.newIdCounter_CInv hI o) hl hb').1
+  | update b =>
+    simp only [C01.Shard.step] at hr hb' ⊢
+    rcases updatePoints_cases cfg s b o with ⟨_, r, h2⟩ | ⟨p, ids, hl, _, heq⟩
+    · rw [h2] at hr; cases hr
+    · rw [heq]
+      exact update_chain cfg cv b s.pts [] p ids hI.pts hlb hl
+  | delete ids =>
+    simp only [C01.Shard.step] at hr hb' ⊢
+    rcases deletePoints_cases s ids o with ⟨_, r, h2⟩ | ⟨_, heq⟩
+    · rw [h2] at hr; cases hr
+    · rw [heq]
+      exact delete_chain cv _ s.pts (C01.newIdCounter s o) [] hI.pts hlb
+
+/-! ### the combined invariant -/
+
+/-- C01's invariant of the point store, the id bound, and — for every index of the schema — C02's
+index invariant relative to the documents the point store holds -/
+structure Inv (lower : Bytes → Bytes) (cv : Conv) (st : State) : Prop where
+  store : C01.Inv st.shard
+  bound : st.shard.nextV ≤ idBound
+  idx : ∀ ix ∈ st.idxs, ix.Inv lower (docAt cv st.shard.pts)
+
+theorem Inv.liveBound {lower : Bytes → Bytes} {cv : Conv} {st : State} (h : Inv lower cv st) : LiveBound st.shard.pts :=
+  fun id u hl => Nat.lt_of_lt_of_le (h.store.ctr.live_range id u hl).2 h.bound
+
+/-- what a batch must satisfy beyond being accepted: fewer than `2^63` node ids are in use afterwards,
+and no NaN is written into a float-indexed property (exactly C02's exclusion) -/
+def StepOK (lower : Bytes → Bytes) (cv : Conv) (cfg : C01.Cfg) (st : State) (op : C01.Op) (o : C01.Oracle) : Prop :=
+  (st.step lower cv cfg op o).1.shard.nextV ≤ idBound ∧
+  ∀ pc ∈ changes cfg cv st.shard op o, ∀ ix ∈ st.idxs, ix.kind = .flt → C02.FltOK ix.path pc.cur
+
+def HistOK (lower : Bytes → Bytes) (cv : Conv) (cfg : C01.Cfg) : State → List (C01.Op × C01.Oracle) → Prop
+  | _, [] => True
+  | st, e :: rest => StepOK lower cv cfg st e.1 e.2 ∧ HistOK lower cv cfg (st.step lower cv cfg e.1 e.2).1 rest
+
+/-- the oracle the point store runs under: the index verdict is the indexes' -/
+def withVerdict (lower : Bytes → Bytes) (cv : Conv) (cfg : C01.Cfg) (st : State) (op : C01.Op) (o : C01.Oracle) : C01.Oracle :=
+  { o with indexOk := indexVerdict lower st (changes cfg cv st.shard op o) }
+
+theorem step_shard (lower : Bytes → Bytes) (cv : Conv) (cfg : C01.Cfg) (st : State) (op : C01.Op) (o : C01.Oracle) :
+    (st.step lower cv cfg op o).1.shard = (st.shard.step cfg op (withVerdict lower cv cfg st op o)).1 ∧
+    (st.step lower cv cfg op o).2 = (st.shard.step cfg op (withVerdict lower cv cfg st op o)).2 := by
+  unfold State.step
+  simp only []
+  by_cases hr : isRejected (st.shard.step cfg op (withVerdict lower cv cfg st op o)).2 = true
+  · have := shard_step_rejected cfg st.shard op _ hr
+    unfold withVerdict at hr this ⊢
+    rw [if_pos hr]
+    exact ⟨this.symm, rfl⟩
+  · unfold withVerdict at hr ⊢
+    rw [if_neg hr]
+    exact ⟨rfl, rfl⟩
+
+theorem step_rejected_same (lower : Bytes → Bytes) (cv : Conv) (cfg : C01.Cfg) (st : State) (op : C01.Op) (o : C01.Oracle)
+    (h : isRejected (st.step lower cv cfg op o).2 = true) : (st.step lower cv cfg op o).1 = st := by
+  rw [(step_shard lower cv cfg st op o).2] at h
+  unfold State.step
+  simp only []
+  unfold withVerdict at h
+  rw [if_pos h]
+
+theorem step_idxs (lower : Bytes → Bytes) (cv : Conv) (cfg : C01.Cfg) (st : State) (op : C01.Op) (o : C01.Oracle)
+    (h : isRejected (st.step lower cv cfg op o).2 = false) :
+    (st.step lower cv cfg op o).1.idxs = st.idxs.map (fun ix => ix.step lower (changes cfg cv st.shard op o)) ∧
+    (st.step lower cv cfg op o).1.bolt = st.bolt := by
+  rw [(step_shard lower cv cfg st op o).2] at h
+  unfold State.step
+  simp only []
+  unfold withVerdict at h
+  have : ¬ isRejected (st.shard.step cfg op { o with indexOk := indexVerdict lower st (changes cfg cv st.shard op o) }).2 = true := by
+    rw [h]; exact Bool.false_ne_true
+  rw [if_neg this]
+  exact ⟨rfl, rfl⟩
+
+/-- **one batch keeps the combined invariant** (C02's hypothesis "inserted node ids are unused and
+distinct" is not assumed: the change stream is a chain because of C01's invariant) -/
+theorem step_inv (lower : Bytes → Bytes) (cv : Conv) (cfg : C01.Cfg) {st : State} (hI : Inv lower cv st)
+    (op : C01.Op) (o : C01.Oracle) (ok : StepOK lower cv cfg st op o) :
+    Inv lower cv (st.step lower cv cfg op o).1 := by
+  obtain ⟨hs1, hs2⟩ := step_shard lower cv cfg st op o
+  by_cases hr : isRejected (st.step lower cv cfg op o).2 = true
+  · rw [step_rejected_same lower cv cfg st op o hr]; exact hI
+  · have hr' : isRejected (st.step lower cv cfg op o).2 = false := by
+      cases h : isRejected (st.step lower cv cfg op o).2 with
+      | true => exact absurd h hr
+      | false => rfl
+    obtain ⟨hix, _⟩ := step_idxs lower cv cfg st op o hr'
+    have hstore := (C01.C01_step cfg st.shard op (withVerdict lower cv cfg st op o) hI.store).1
+    refine ⟨by rw [hs1]; exact hstore, ok.1, ?_⟩
+    intro ix' hix'
+    rw [hix] at hix'
+    obtain ⟨ix, hmem, rfl⟩ := List.mem_map.1 hix'
+    have hchain := step_chain cfg cv st.shard hI.store hI.bound op (withVerdict lower cv cfg st op o)
+      (by rw [← hs2]; exact hr') (by rw [← hs1]; exact ok.1)
+    rw [← hs1] at hchain
+    unfold withVerdict at hchain
+    rw [changes_indexOk] at hchain
+    exact C02.Index.step_inv lower ix (hI.idx ix hmem) hchain (fun hk pc hpc => ok.2 pc hpc ix hmem hk)
+
+theorem init_inv (lower : Bytes → Bytes) (cv : Conv) (schema : List (List String × C02.Kind)) (bolt : Bool) :
+    Inv lower cv (State.init schema bolt) := by
+  refine ⟨C01.Inv_empty, (by decide : (2 : Nat) ≤ 2 ^ 63), ?_⟩
+  intro ix hix
+  simp only [State.init, List.mem_map] at hix
+  obtain ⟨s, _, rfl⟩ := hix
+  obtain ⟨p, k⟩ := s
+  cases k with
+  | str cs => exact C02.idxInv_empty C02.strOps
+  | strArr cs => exact C02.idxInv_empty C02.strOps
+  | int => exact C02.idxInv_empty C02.intOps
+  | flt =>
+    refine ⟨C02.idxInv_empty C02.fltOps, fun i x hx => ?_⟩
+    have hd : docAt cv (State.init schema bolt).shard.pts i = none := rfl
+    simp [C02.fltVals, hd, C02.getProp] at hx
+
+theorem run_inv (lower : Bytes → Bytes) (cv : Conv) (cfg : C01.Cfg) (h : List (C01.Op × C01.Oracle)) : ∀ (st : State),
+    Inv lower cv st → HistOK lower cv cfg st h → Inv lower cv (State.run lower cv cfg st h).1 := by
+  induction h with
+  | nil => intro st hI _; exact hI
+  | cons e rest ih =>
+    obtain ⟨op, o⟩ := e
+    intro st hI hok
+    exact ih _ (step_inv lower cv cfg hI op o hok.1) hok.2
+
+/-! ### the point store as the query side sees it -/
+
+theorem idOf_view (cv : Conv) (p : Points) (u : Uuid) : C02.idOf (viewPts cv p) u = (C01.AL.get p.pI u).map nid := by
+  unfold C02.idOf viewPts
+  generalize p.pI = l
+  induction l with
+  | nil => rfl
+  | cons e r ih =>
+    obtain ⟨a, n⟩ := e
+    by_cases h : a = u
+    · subst h
+      rw [List.map_cons, List.find?_cons_of_pos (by simp)]
+      simp [C01.AL.get_cons]
+    · rw [List.map_cons, List.find?_cons_of_neg (by simpa using h), ih]
+      simp [C01.AL.get_cons, h]
+
+theorem nodupUuids_view (cv : Conv) {p : Points} (hp : PInv p) : C02.NodupUuids (viewPts cv p) := by
+  unfold C02.NodupUuids viewPts
+  rw [List.pairwise_map]
+  have h := hp.pI_nodup
+  unfold C01.AL.keys at h
+  rw [List.Nodup, List.pairwise_map] at h
+  exact h
+
+theorem nodupIds_view (cv : Conv) {p : Points} (hp : PInv p) (hb : LiveBound p) : C02.NodupIds (viewPts cv p) := by
+  unfold C02.NodupIds viewPts
+  rw [List.pairwise_map]
+  have h := hp.pI_nodup
+  unfold C01.AL.keys at h
+  rw [List.Nodup, List.pairwise_map] at h
+  refine h.imp_of_mem ?_
+  intro a b ha hb' hab heq
+  apply hab
+  have ga := hp.mem_pI ha
+  have gb := hp.mem_pI hb'
+  have la := hb a.2 a.1 ((hp.bij a.1 a.2).mp ga)
+  have lb := hb b.2 b.1 ((hp.bij b.1 b.2).mp gb)
+  have : a.2 = b.2 := nid_inj la lb heq
+  rw [← this] at gb
+  exact hp.inj ga gb
+
+/-- the document the query side reads for node id `i`: present iff `i` is live -/
+theorem docOf_view (cv : Conv) {p : Points} (hp : PInv p) (hb : LiveBound p) (i : C02.Id) :
+    C02.docOf (viewPts cv p) i =
+      (C01.AL.get p.nI i.toNat).map (fun _ => ((C01.AL.get p.nD i.toNat).map (idxDoc cv)).getD .nil) := by
+  cases hl : C01.AL.get p.nI i.toNat with
+  | some u =>
+    have hpu : C01.AL.get p.pI u = some i.toNat := (hp.bij u i.toNat).mpr hl
+    have hmem : (⟨nid i.toNat, u, ((C01.AL.get p.nD i.toNat).map (idxDoc cv)).getD .nil⟩ : C02.Point) ∈ viewPts cv p :=
+      List.mem_map.2 ⟨(u, i.toNat), C01.AL.mem_of_get hpu, rfl⟩
+    have := C02.docOf_of_mem (nodupIds_view cv hp hb) hmem
+    simp only [nid_of_toNat] at this
+    rw [this]; rfl
+  | none =>
+    simp only [Option.map_none]
+    rw [C02.docOf_eq_none_iff]
+    intro q hq hqi
+    obtain ⟨e, he, rfl⟩ := List.mem_map.1 hq
+    have ge := hp.mem_pI he
+    have le := (hp.bij e.1 e.2).mp ge
+    have : i.toNat = e.2 := by
+      have h2 : nid e.2 = i := hqi
+      rw [← h2]; exact nid_toNat (hb e.2 e.1 le)
+    rw [this, le] at hl; cases hl
+
+theorem getProp_some_nil (path : List String) : C02.getProp (some .nil) path = none := by
+  cases path <;> simp [C02.getProp, C02.Val.query]
+
+/-- … and it has the properties of the stored document (zero-length data: none at all) -/
+theorem getProp_view (cv : Conv) {p : Points} (hp : PInv p) (hb : LiveBound p) (i : C02.Id) (path : List String) :
+    C02.getProp (C02.docOf (viewPts cv p) i) path = C02.getProp (docAt cv p i) path := by
+  rw [docOf_view cv hp hb]
+  unfold docAt
+  cases hl : C01.AL.get p.nI i.toNat with
+  | none => rw [nD_none_of_dead hp hl]; rfl
+  | some u =>
+    cases hd : C01.AL.get p.nD i.toNat with
+    | none => simp [getProp_some_nil]; rfl
+    | some d => rfl
+
+/-- C02's index invariant reads the documents through `getProp` only -/
+theorem indexInv_congr (lower : Bytes → Bytes) (ix : C02.Index) {D D' : C02.Id → Option C02.Val}
+    (h : ∀ i path, C02.getProp (D i) path = C02.getProp (D' i) path) (inv : ix.Inv lower D) : ix.Inv lower D' := by
+  obtain ⟨path, kind, kv⟩ := ix
+  have e1 : ∀ cs, (fun i => C02.strVals lower cs path (D i)) = fun i => C02.strVals lower cs path (D' i) := by
+    intro cs; funext i; simp only [C02.strVals, h]
+  have e2 : ∀ cs, (fun i => C02.arrVals lower cs path (D i)) = fun i => C02.arrVals lower cs path (D' i) := by
+    intro cs; funext i; simp only [C02.arrVals, h]
+  have e3 : (fun i => C02.intVals path (D i)) = fun i => C02.intVals path (D' i) := by
+    funext i; simp only [C02.intVals, h]
+  have e4 : (fun i => C02.fltVals path (D i)) = fun i => C02.fltVals path (D' i) := by
+    funext i; simp only [C02.fltVals, h]
+  cases kind with
+  | str cs => show C02.IdxInv _ _ _; rw [← e1 cs]; exact inv
+  | strArr cs => show C02.IdxInv _ _ _; rw [← e2 cs]; exact inv
+  | int => show C02.IdxInv _ _ _; rw [← e3]; exact inv
+  | flt =>
+    refine ⟨by rw [← e4]; exact inv.1, ?_⟩
+    intro i x hx
+    have : C02.fltVals path (D' i) = C02.fltVals path (D i) := (congrFun e4 i).symm
+    exact inv.2 i x (this ▸ hx)
+
+/-- **C02's shard invariant holds for the combined state** (its hypotheses on the point store — node ids
+and uuids name points uniquely — are C01's invariant) -/
+theorem view_inv {lower : Bytes → Bytes} {cv : Conv} {st : State} (hI : Inv lower cv st) : C02.Inv lower (st.view cv) := by
+  have hp := hI.store.pts
+  have hb := hI.liveBound
+  refine ⟨?_, nodupIds_view cv hp hb, nodupUuids_view cv hp⟩
+  intro ix hix
+  exact indexInv_congr lower ix (fun i path => (getProp_view cv hp hb i path).symm) (hI.idx ix hix)
+
 end Sema.Compose
